@@ -112,14 +112,23 @@ def run(ctx):
     # ---------------------------------------------------------------- (e) bit order / SYNC
     ts = ctx.ir('TxShifter', 'transmitter', width=8)
     od = ts.drivers('self.o_data', exact=True)
-    ctx.ob('C25.lsb-first', 'TxShifter.o_data', len(od) == 1 and od[0].rhs.canon() == 'shifter[0:1]', None,
-           'transmit shifter must emit bit 0: %s' % [q.fmt(d) for d in od])
-    sh = [d for d in ts.drivers('shifter', exact=True) if isinstance(d.rhs, E) and d.rhs.op == '>>']
-    ctx.ob('C25.lsb-first', 'TxShifter.shift', len(sh) == 1 and sh[0].rhs.canon() == 'shifter >> 1' and
+    # the shift register by role: the local register whose slice is shown on o_data (the name is the code's own)
+    r0 = od[0].rhs if len(od) == 1 and isinstance(od[0].rhs, E) else None
+    SH = r0.args[0].canon() if r0 is not None and r0.op == 'slice' and isinstance(r0.args[0], E) and r0.args[0].op == 'sig' \
+        else (r0.canon() if r0 is not None and r0.op == 'sig' else None)
+    ctx.ob('C25.lsb-first', 'TxShifter.o_data', SH is not None and SH in ts.signals and not SH.startswith('self.') and
+           r0.canon() == SH + '[0:1]' and not od[0].guard, None,
+           'transmit shifter must emit bit 0 of its shift register: %s' % [q.fmt(d) for d in od])
+    sd = ts.drivers(SH, exact=True) if SH else []
+    sh = [d for d in sd if isinstance(d.rhs, E) and d.rhs.op == '>>']
+    ctx.ob('C25.lsb-first', 'TxShifter.shift', len(sh) == 1 and sh[0].rhs.canon() == SH + ' >> 1' and
            q.has(sh[0], 'self.i_enable'), sh[0].loc if sh else None, 'transmit shifter must shift right by one')
-    ld = [d for d in ts.drivers('shifter', exact=True) if d.rhs.canon() == 'self.i_data']
-    ctx.ob('C25.lsb-first', 'TxShifter.load', len(ld) == 1 and q.has(ld[0], 'empty') and q.has(ld[0], 'self.i_enable'),
-           ld[0].loc if ld else None, 'shifter loads a new byte only when empty and enabled')
+    ld = [d for d in sd if d.rhs.canon() == 'self.i_data']
+    # "empty" by role: what the o_empty port mirrors
+    oe = [d for d in ts.drivers('self.o_empty', exact=True)]
+    EMP = oe[0].rhs.canon() if len(oe) == 1 and not oe[0].guard and isinstance(oe[0].rhs, E) else '<source of o_empty>'
+    ctx.ob('C25.lsb-first', 'TxShifter.load', len(ld) == 1 and q.has(ld[0], EMP) and q.has(ld[0], 'self.i_enable'),
+           ld[0].loc if ld else None, 'shifter loads a new byte only when empty (what o_empty reports: %s) and enabled' % EMP)
     rs = ctx.ir('RxShifter', 'receiver', width=8)
     up = [d for d in rs.drivers('shift_reg', exact=True) if d.rhs.canon() == 'Cat(self.i_data, shift_reg[0:8])']
     down = [d for d in rs.drivers('shift_reg', exact=True) if d.rhs.canon() == 'Cat(shift_reg[1:9], self.i_data)']
